@@ -92,6 +92,76 @@ theorem binarySearch_iff (arr : Array Int) (x : Int)
     · have := hs (lowerBound arr x (arr.size + 1) 0 arr.size) k (by omega) hk
       omega
 
+/-! ### `np.unique` + binary search = membership -/
+
+theorem pairwise_eraseDups {R : Int → Int → Prop} : ∀ (n : Nat) (l : List Int), l.length ≤ n →
+    l.Pairwise R → l.eraseDups.Pairwise R := by
+  intro n
+  induction n with
+  | zero =>
+    intro l hl _
+    have : l = [] := List.eq_nil_of_length_eq_zero (by omega)
+    subst this; simp
+  | succ n ih =>
+    intro l hl hp
+    cases l with
+    | nil => simp
+    | cons a as =>
+      rw [List.eraseDups_cons]
+      have hp' := List.pairwise_cons.mp hp
+      refine List.pairwise_cons.mpr ⟨?_, ?_⟩
+      · intro b hb
+        have hb1 := List.mem_eraseDups.mp hb
+        exact hp'.1 b (List.mem_filter.mp hb1).1
+      · apply ih
+        · have := List.length_filter_le (fun b => !b == a) as
+          simp at hl; omega
+        · exact hp'.2.filter _
+
+theorem sortedUnique_sorted (xs : List Int) : (sortedUnique xs).Pairwise (· ≤ ·) := by
+  unfold sortedUnique
+  apply pairwise_eraseDups _ _ (Nat.le_refl _)
+  have := List.pairwise_mergeSort (le := fun (a b : Int) => decide (a ≤ b))
+    (by intro a b c h1 h2; simp at *; omega) (by intro a b; simp; omega) xs
+  exact this.imp (by intro a b h; simpa using h)
+
+theorem mem_sortedUnique (xs : List Int) (v : Int) : v ∈ sortedUnique xs ↔ v ∈ xs := by
+  unfold sortedUnique
+  rw [List.mem_eraseDups, List.mem_mergeSort]
+
+theorem removeRegions_eq_spec (labels regions : List Int) :
+    removeRegions labels regions = removeRegionsSpec labels regions := by
+  unfold removeRegions removeRegionsSpec
+  apply List.map_congr_left
+  intro v _
+  have hs : ∀ i j, i < j → j < (sortedUnique regions).toArray.size →
+      (sortedUnique regions).toArray.getD i 0 ≤ (sortedUnique regions).toArray.getD j 0 := by
+    intro i j hij hj
+    have hj' : j < (sortedUnique regions).length := by simpa using hj
+    have := (List.pairwise_iff_getElem.mp (sortedUnique_sorted regions)) i j (by omega) hj' hij
+    simpa [Array.getD_eq_getD_getElem?, hj', (by omega : i < (sortedUnique regions).length)] using this
+  have hb := binarySearch_iff (sortedUnique regions).toArray v hs
+  have hmem : (∃ i, i < (sortedUnique regions).toArray.size ∧ (sortedUnique regions).toArray.getD i 0 = v) ↔
+      v ∈ regions := by
+    rw [← mem_sortedUnique]
+    constructor
+    · rintro ⟨i, hi, rfl⟩
+      have hi' : i < (sortedUnique regions).length := by simpa using hi
+      simp [Array.getD_eq_getD_getElem?, hi']
+    · intro hv
+      obtain ⟨i, hi, rfl⟩ := List.getElem_of_mem hv
+      exact ⟨i, by simpa using hi, by simp [Array.getD_eq_getD_getElem?, hi]⟩
+  by_cases hv0 : v = 0
+  · subst hv0
+    by_cases hc : regions.contains 0 <;> simp [hc]
+  · by_cases hc : v ∈ regions
+    · have : binarySearch (sortedUnique regions).toArray v = true := hb.mpr (hmem.mpr hc)
+      simp [this, hv0, hc]
+    · have : binarySearch (sortedUnique regions).toArray v = false := by
+        cases h : binarySearch (sortedUnique regions).toArray v
+        · rfl
+        · exact absurd (hmem.mp (hb.mp h)) hc
+      simp [this, hc]
 /-! ### coordinates are inside their axes -/
 
 theorem unravel_lt : ∀ (shape : List Nat) (i : Nat), i < shapeSize shape →
